@@ -67,7 +67,11 @@ def vectors12(tier, seed):
               "HiddenServicePort", "80 127.0.0.1:8081"], True),
             (["Log", "notice stdout", "Log", "debug file /x y"], True),
             (["bad key", "v"], False), (["k\r\nQUIT", "v"], False), (["k=x", "v"], False), (["k\tx", "v"], False),
-            (["", "v"], False), (["k\"x", "v"], False), (["odd"], True), (["a", "b", "c"], True)]
+            (["", "v"], False), (["k\"x", "v"], False),
+            # keys with white space or line breaks at their ends, in the first and in a later pair
+            (["k\r\n", "v"], False), (["k\n", "v"], False), (["\nk", "v"], False), (["k ", "v"], False), ([" k", "v"], False),
+            (["k\t", "v"], False), (["ControlPort", "9051", "SocksPort\r\n", "9050"], False),
+            (["ControlPort", "9051", "SocksPort\n", "9050", "Log", "x"], False), (["A", "1", "\r\nB", "2"], False), (["odd"], True), (["a", "b", "c"], True)]
     return out
 
 
